@@ -2,7 +2,7 @@
 CONSTANTS
     NK = 3
     NKnown = 2
-    Passes = {"e", "u", "l"}
+    Passes = {"e", "w", "u", "v"}
     MaxArm = 2
     Depth = 12
 SPECIFICATION Spec
